@@ -16,6 +16,7 @@ Statements
 ["rec"]                 record logical seconds/beats seen
 ["wait", d]             yield d
 ["spawn", r]            play routine r on its clock with its quant
+["embed", r]            run routine r in place: yield from embed(Routine r)
 ["bundle", lat, els, "bind"]  flat messages through Server.default.bind()
                         with Server.latency = lat
 ["msg", n]              send_msg('/m', rid, n) to the target address
@@ -97,7 +98,12 @@ def gen(tp, feat, tier='quick'):
             else:
                 body.append(st)
         for c in kids:
-            if tp.draw(3) == 0:
+            if feat.get('embed') and tp.draw(4) == 0:
+                # c is not played: r runs it in place (yield from embed(c))
+                st = ['embed', c]
+                routines[c]['clock'] = routines[r]['clock']
+                routines[c]['quant'] = None
+            elif tp.draw(3) == 0:
                 st = ['spawnd', c, tp.choice(DELTAS)]   # clock.sched(d, r)
             else:
                 st = ['spawn', c]                       # r.play(clock, quant)
@@ -249,13 +255,13 @@ def shrink_candidates(prog):
     rs = prog['routines']
     # drop a whole routine that nobody spawns any more / leaf routines
     spawned = {st[1] for r in rs for st in r['body']
-               if st[0] in ('spawn', 'spawnd')}
+               if st[0] in ('spawn', 'spawnd', 'embed')}
     for i in range(len(rs) - 1, 0, -1):
         c = copy.deepcopy(prog)
         # remove spawn statements for i, keep indices stable by emptying
         for r in c['routines']:
             r['body'] = [st for st in r['body']
-                         if not (st[0] in ('spawn', 'spawnd')
+                         if not (st[0] in ('spawn', 'spawnd', 'embed')
                                  and st[1] == i)]
         if i in spawned:
             c['routines'][i]['body'] = []
@@ -331,7 +337,8 @@ class Interp:
 
         def rfunc(inval):
             rout, clock = inval
-            if rid == 0:
+            rout = me.robj.get(rid, rout)   # (an embedded routine is handed
+            if rid == 0:                    # its embedder's inval)
                 for i, cd in enumerate(me.prog['clocks']):
                     me.clocks[f't{i}'] = me.sclk.TempoClock(
                         cd['tempo'], cd.get('beats') or None)
@@ -340,7 +347,13 @@ class Interp:
                 if op == 'wait':
                     me.event('wait', rid, st[1])
                     inval = yield st[1]
-                    rout, clock = inval
+                    clock = inval[1]
+                elif op == 'embed':
+                    me.event('embed', rid, st[1])
+                    inner = me.make(st[1])
+                    inval = yield from me.sstm.embed(inner, (inner, clock))
+                    if inval is not None:
+                        clock = inval[1]
                 elif op == 'cwait':
                     me.event('cwait', rid, st[1])
                     yield from me.cond(st[1]).wait()
@@ -641,6 +654,7 @@ class Model:
         self.pending = []     # [clockname, t, seq, rid]
         self.seq = 0
         self.pc = {}
+        self.frames = {}
         self.nrec = {}
         self.recs = {}        # rid -> list of dict(secs, beats, alt_beats)
         self.events = []      # global order of model events
@@ -686,8 +700,12 @@ class Model:
         cname, t, _, rid, alt = e
         rdef = self.prog['routines'][rid]
         secs = self.secs_of(cname, t)
-        body = rdef['body']
-        pc = self.pc.get(rid, 0)
+        # frames: an embedded routine runs inside the routine that embeds it
+        # (which is the one the clock wakes up), under its own label
+        frames = self.frames.setdefault(rid, [[rid, 0]])
+        sched_rid = rid
+        rid, pc = frames[-1]
+        body = self.prog['routines'][rid]['body']
         if rid not in self.starts:
             self.starts[rid] = (secs, t if cname.startswith('t') else None,
                                 alt)
@@ -695,11 +713,26 @@ class Model:
             for i, cd in enumerate(self.prog['clocks']):
                 self.clocks[f't{i}'] = MClock(
                     cd['tempo'], cd.get('beats') or 0.0, secs)
-        while pc < len(body):
+        while True:
+            if pc >= len(body):
+                self.events.append(('end', rid, secs))
+                frames.pop()
+                if not frames:
+                    break
+                rid, pc = frames[-1]
+                body = self.prog['routines'][rid]['body']
+                continue
             st = body[pc]
             pc += 1
+            frames[-1][1] = pc
             op = st[0]
-            if op == 'rec':
+            if op == 'embed':
+                frames.append([st[1], 0])
+                rid, pc = st[1], 0
+                body = self.prog['routines'][rid]['body']
+                self.starts.setdefault(rid, (
+                    secs, t if cname.startswith('t') else None, alt))
+            elif op == 'rec':
                 k = self.nrec.get(rid, 0)
                 self.nrec[rid] = k + 1
                 if cname.startswith('t'):
@@ -712,10 +745,9 @@ class Model:
                     rec['alt_beats'] = alt
                 self.recs.setdefault(rid, []).append(rec)
             elif op == 'wait':
-                self.pc[rid] = pc
                 d = st[1]
                 if d != INF:
-                    self.add(cname, t + d, rid, None if alt is None
+                    self.add(cname, t + d, sched_rid, None if alt is None
                              else alt + d)
                 self.events.append(('wait', rid, secs))
                 return
@@ -762,5 +794,3 @@ class Model:
                 self.events.append(('send', rid, secs, st))
             else:
                 pass
-        self.pc[rid] = pc
-        self.events.append(('end', rid, secs))
